@@ -142,9 +142,60 @@ outer2:
 		}
 	}
 
+	if !applies(src, ret, dst) {
+		// Entry-level edits cannot express this change (reordering,
+		// duplicates, a removed entry that also matches a kept one):
+		// replace the whole list.
+		dst = slices.Clone(dst)
+		dst = append(dst, map[string]any{"$replace": true})
+
+		return dst, nil
+	}
+
 	if len(ret) == 0 {
 		return nil, nil
 	}
 
 	return ret, nil
+}
+
+// applies reports whether layering patch over src yields exactly dst.
+func applies(src, patch, dst []any) bool {
+	p, err := bkl.New()
+	if err != nil {
+		return false
+	}
+
+	base := bkl.NewDocumentWithData("base", copyAny(src))
+	upper := bkl.NewDocumentWithData("patch", copyAny(patch))
+	upper.AddParents(base)
+
+	if p.MergeDocument(base) != nil || p.MergeDocument(upper) != nil {
+		return false
+	}
+
+	return reflect.DeepEqual(p.Documents()[0].Data, any(dst))
+}
+
+func copyAny(v any) any {
+	switch v2 := v.(type) {
+	case map[string]any:
+		ret := map[string]any{}
+		for k, x := range v2 {
+			ret[k] = copyAny(x)
+		}
+
+		return ret
+
+	case []any:
+		ret := []any{}
+		for _, x := range v2 {
+			ret = append(ret, copyAny(x))
+		}
+
+		return ret
+
+	default:
+		return v
+	}
 }
